@@ -36,7 +36,7 @@ def spec_should_stop(rates, k, max_cycles, fe, patience, min_delta):
     return False
 
 
-def run_history(mc, use_fe, patience, n_agents=1):
+def run_history(mc, use_fe, patience, n_agents=1, debug=False):
     fe = sym.real("fitness_error") if use_fe else None
     md = sym.real("min_delta") if patience is not None else None
     es = M.EarlyStopping(patience=patience, min_delta=md) if patience is not None else None
@@ -46,6 +46,7 @@ def run_history(mc, use_fe, patience, n_agents=1):
     def gen(c):
         return [agent((c, a), 0.0, fitness=fits[c][a]) for a in range(n_agents)]
     opt = Scripted(cfg, init=lambda o: gen(0), step=lambda o, k: setattr(o, "_population", gen(min(k, mc))))
+    opt._debug = debug          # the verbose path formats the best agent and the rates every cycle
     task = make_task([cont()], lambda x, i: 0.0)
     res = opt.optimize(task)
     means = []
@@ -79,10 +80,10 @@ def run_history(mc, use_fe, patience, n_agents=1):
     return OK
 
 
-def ob(mc, use_fe, patience, n_agents=1):
+def ob(mc, use_fe, patience, n_agents=1, debug=False):
     def f():
         with env(allow_seed=True):
-            return run_history(mc, use_fe, patience, n_agents)
+            return run_history(mc, use_fe, patience, n_agents, debug)
     return f
 
 
@@ -110,5 +111,7 @@ def obligations(tier):
     for n in (2, 3) if th else (2,):
         for mc in (1, 2, 3):
             obs.append(Ob(f"mean[agents={n},mc={mc}]", ob(mc, True, 1, n), 300))
+    for mc, use_fe, patience in ((1, True, None), (2, True, 1), (3, False, 2), (3, True, 4)):
+        obs.append(Ob(f"stop_debug[mc={mc},fe={int(use_fe)},patience={patience}]", ob(mc, use_fe, patience, debug=True), 300))
     obs.append(Ob("twin_vacuity", twin(), 30, expect_refuted=True))
     return obs
